@@ -88,6 +88,24 @@ EXTRA_SCHEMATA = [
 ]
 
 
+# Probes: modal forms that hold in few or none of the logics.  Wherever a logic wrongly calls one valid (an unsound
+# frame or witness rule: shared successors, merged worlds), the stronger logic of a declared pair refutes it.
+PROBES = [
+    ('G (.2)', [_P(_N(_A))], _N(_P(_A))),
+    ('McKinsey', [_N(_P(_A))], _P(_N(_A))),
+    ('two boxes behind two diamonds', [_P(_N(_A)), _P(_N(A.neg(_A)))], _B),
+    ('box-diamond excluded middle', [], _or(_N(_P(_A)), _N(_P(A.neg(_A))))),
+    ('diamond agglomeration', [_P(_A), _P(_B)], _P(_and(_A, _B))),
+    ('box over V', [_N(_or(_A, _B))], _or(_N(_A), _N(_B))),
+    ('diamond to box', [_P(_A)], _N(_A)),
+    ('diamond box to box diamond under box', [_N(_P(_N(_A)))], _N(_N(_P(_A)))),
+    ('two diamonds, one successor', [_P(_A), _P(A.neg(_A)), _N(_N(_B))], _P(_and(_N(_B), _A))),
+    ('nested witnesses', [_P(_P(_A)), _P(_P(A.neg(_A)))], _P(_and(_P(_A), _P(A.neg(_A))))),
+    ('existential agglomeration', [_X(_x, _F(_x)), _X(_x, _G(_x))], _X(_x, _and(_F(_x), _G(_x)))),
+    ('existential to universal', [_X(_x, _F(_x))], _L(_x, _F(_x))),
+]
+
+
 def schemata():
     global _SCHEMATA
     if _SCHEMATA is None:
@@ -169,6 +187,7 @@ def run_shard(shard, acc):
     prof = gen.Profile(w_atom=5, w_pred=3, w_ident=1, w_neg=4, w_assert=1, w_bin=6, w_modal=4, w_quant=3,
                        max_depth=2).for_logic(weaker)
     sch = [(t, p, c) for t, p, c in schemata() if all(fragment_ok(weaker, s) for s in (*p, c))]
+    probes = [(t, p, c) for t, p, c in PROBES if all(fragment_ok(weaker, s) for s in (*p, c))]
     nvalid = [0]
 
     @seed(shard['seed'] * 1000 + shard['idx'])
@@ -176,12 +195,13 @@ def run_shard(shard, acc):
               phases=[Phase.generate], suppress_health_check=list(HealthCheck))
     @given(st.data())
     def body(data):
-        mode = data.draw(st.integers(0, 5))
+        mode = data.draw(st.integers(0, 7))
         if mode == 0:
             prem, con = data.draw(gen.argument(prof, 2))
             title = 'random'
         else:
-            title, p0, c0 = sch[data.draw(st.integers(0, len(sch) - 1))]
+            pool = probes if (mode >= 6 and probes) else sch
+            title, p0, c0 = pool[data.draw(st.integers(0, len(pool) - 1))]
             atoms = sorted(set().union(*(A.atoms(s) for s in (*p0, c0))))
             mp = {}
             for a in atoms:
@@ -203,7 +223,7 @@ def run_shard(shard, acc):
         if info['weak'] == 'limited' or info['strong'] == 'limited':
             acc.inconclusive += 1
         acc.case((weaker, stronger, case['premises'], case['conclusion']), nontrivial=valid,
-                 classes=('weaker:' + str(info['weak']), 'schema' if mode else 'random'),
+                 classes=('weaker:' + str(info['weak']), 'random' if not mode else 'probe' if (mode >= 6 and probes) else 'schema'),
                  sample=(f'{weaker} -> {stronger}: {A.show_arg(prem, con)} ({title}): {info["weak"]} / {info["strong"]}' if valid else None))
         for fp, d in res:
             acc.finding(fp, case, d)
